@@ -32,7 +32,7 @@ use crate::{Ctx, Tier};
 use scylla::cluster::ClusterState;
 use scylla::frame::response::result::TableSpec;
 use scylla::frame::types::{Consistency, SerialConsistency};
-use scylla::policies::load_balancing::{DefaultPolicy, LoadBalancingPolicy, Plan, RoutingInfo};
+use scylla::policies::load_balancing::{DefaultPolicy, LatencyAwarenessBuilder, LoadBalancingPolicy, Plan, RoutingInfo};
 use scylla::routing::{NodeLocationPreference, Token};
 use scylla::verif_hooks::cluster::{KeyspaceSpec, NodeSpec, cluster_from_topology_with_tablets, set_sharders};
 use std::cell::RefCell;
@@ -178,6 +178,10 @@ thread_local! {
 }
 
 thread_local! {
+    /// The runtime of the latency-aware cases: its clock is paused and only moves when a case advances it.
+    static RTP: &'static tokio::runtime::Runtime = Box::leak(Box::new(
+        tokio::runtime::Builder::new_current_thread().enable_all().start_paused(true).build().unwrap(),
+    ));
     static RT5: tokio::runtime::Runtime =
         tokio::runtime::Builder::new_current_thread().enable_all().build().unwrap();
 }
@@ -349,9 +353,36 @@ fn obs_list(v: &[Obs]) -> String {
 
 pub fn run(case: &str, ctx: &mut Ctx) -> String {
     let w: Vec<&str> = case.split_whitespace().collect();
+    let w0: Vec<&str> = w.clone();
     let is_plan = !w.is_empty() && (w[0] == "plan" || w[0].starts_with("plan."));
     let is_tplan = !w.is_empty() && (w[0] == "tplan" || w[0].starts_with("tplan."));
-    if !((is_plan && w.len() == 6) || (is_tplan && w.len() == 7)) {
+    let is_hplan = !w.is_empty() && (w[0] == "hplan" || w[0].starts_with("hplan."));
+    // lplan: as plan, with latency awareness ON (an observation outside the property's quantifier): flag `p` = the node
+    // is reported slow (100 ms, the others 1 ms), so it is penalised as soon as some node is not
+    let is_lplan = !w.is_empty() && (w[0] == "lplan" || w[0].starts_with("lplan."));
+    let is_plan = is_plan || is_lplan;
+    // hplan: `hplan <n> (<mode> <topology>)xn <keyspaces> <config> <request> <samples>` - the cluster state is obtained by
+    // a HISTORY of metadata refreshes (mode `n` = ClusterState::new, `r` / `t` = full / topology-only refresh with a
+    // rejecting host filter, `R` / `T` = the same with an accepting one: the reuse / inherit arms of
+    // calculate_new_topology); plans are computed on the last state and judged against the LAST metadata
+    let mut history: Option<Vec<(&str, &str)>> = None;
+    let w: Vec<&str> = if is_hplan {
+        let Some(n) = w.get(1).and_then(|x| x.parse::<usize>().ok()) else { return "bad-case".into() };
+        if n == 0 || w.len() != 2 + 2 * n + 4 {
+            return "bad-case".into();
+        }
+        let steps: Vec<(&str, &str)> = (0..n).map(|i| (w[2 + 2 * i], w[3 + 2 * i])).collect();
+        if steps[0].0 != "n" || steps[1..].iter().any(|(m, _)| !["r", "t", "R", "T", "F", "G"].contains(m)) {
+            return "bad-case".into();
+        }
+        let last = steps[n - 1].1;
+        let t = &w[2 + 2 * n..];
+        history = Some(steps);
+        vec!["plan", last, t[0], t[1], t[2], t[3]]
+    } else {
+        w
+    };
+    if !((is_plan && w.len() == 6) || (is_tplan && w.len() == 7) || is_hplan) {
         return "bad-case".into();
     }
     let (Some(peers), Some(kss), Some(cfg), Some(rq), Ok(samples)) = (
@@ -421,14 +452,54 @@ pub fn run(case: &str, ctx: &mut Ctx) -> String {
             }
         }
     }
-    let cs = cluster(
-        w[1],
-        &peers,
-        w[2],
-        &kss,
-        &sharders,
-        tablets.as_ref().map(|t| (w[5], t.as_slice())),
-    );
+    let cs = match &history {
+        None => cluster(w[1], &peers, w[2], &kss, &sharders, tablets.as_ref().map(|t| (w[5], t.as_slice()))),
+        Some(steps) => {
+            // no sharders on history states (node objects are re-created by refreshes)
+            let mut parsed: Vec<Vec<PeerSpec>> = Vec::new();
+            for (_, t) in steps {
+                let Some(p) = parse_topology(t) else { return "bad-case".into() };
+                if p.iter().any(|x| x.flags.contains('s')) {
+                    return "bad-case".into();
+                }
+                parsed.push(p);
+            }
+            // a filtered refresh (`F` full, `G` topology only): one host-filter verdict per peer, flag `a` = accepted;
+            // the rejected peers carry `d`, so that the override imposed afterwards agrees with the real `pool.is_some()`
+            for (i, (m, _)) in steps.iter().enumerate() {
+                if (*m == "F" || *m == "G") && parsed[i].iter().any(|x| x.flags.contains('a') == x.flags.contains('d')) {
+                    return "bad-case".into();
+                }
+            }
+            let key = format!("H {}", w0[1..w0.len() - 3].join(" "));
+            CACHE.with(|c| {
+                let mut c = c.borrow_mut();
+                if let Some(cs) = c.get(&key) {
+                    return cs.clone();
+                }
+                if c.len() >= 16 {
+                    c.clear();
+                }
+                let mut state = build_cluster(&parsed[0], &kss);
+                for i in 1..steps.len() {
+                    state = match steps[i].0 {
+                        "r" => refresh_cluster(&state, &parsed[i], &kss),
+                        "t" => refresh_cluster_topology(&state, &parsed[i]),
+                        "R" => refresh_cluster_accepting(&state, &parsed[i - 1], &parsed[i], &kss),
+                        "F" => {
+                            let fetched: Vec<Option<Strat>> = kss.iter().cloned().map(Some).collect();
+                            build_state_filtered(Some((&state, &parsed[i - 1])), &parsed[i], &fetched)
+                        }
+                        "G" => refresh_topology_filtered(&state, &parsed[i - 1], &parsed[i]),
+                        _ => refresh_cluster_topology_accepting(&state, &parsed[i - 1], &parsed[i]),
+                    };
+                }
+                let cs = Rc::new(state);
+                c.insert(key, cs.clone());
+                cs
+            })
+        }
+    };
 
     // the policy, through the public builder
     let mut b = DefaultPolicy::builder()
@@ -441,7 +512,35 @@ pub fn run(case: &str, ctx: &mut Ctx) -> String {
         Pref::Dc(d) => b.prefer_datacenter(dc_name(*d)),
         Pref::DcRack(d, r) => b.prefer_datacenter_and_rack(dc_name(*d), rack_name(*r)),
     };
+    // latency awareness needs a runtime (its updater task) and reads tokio's clock: a paused clock, entered for the rest of
+    // this case
+    let rtp: &'static tokio::runtime::Runtime = RTP.with(|r| *r);
+    let _rtp_guard = if is_lplan { Some(rtp.enter()) } else { None };
+    if is_lplan {
+        b = b.latency_awareness(
+            LatencyAwarenessBuilder::new()
+                .exclusion_threshold(2.0)
+                .minimum_measurements(2)
+                .update_rate(std::time::Duration::from_millis(100))
+                .retry_period(std::time::Duration::from_secs(100_000)),
+        );
+    }
     let policy: Arc<dyn LoadBalancingPolicy> = b.build();
+    if is_lplan {
+        // scripted latencies through the public reporting API, then let the updater compute the minimum average
+        let empty = RoutingInfo::default();
+        for _ in 0..5 {
+            for n in cs.get_nodes_info() {
+                let slow = peers.iter().any(|p| p.id == node_id(n.host_id) && p.flags.contains('p'));
+                policy.on_request_success(&empty, std::time::Duration::from_millis(if slow { 100 } else { 1 }), n);
+                rtp.block_on(tokio::time::advance(std::time::Duration::from_millis(10)));
+            }
+        }
+        rtp.block_on(async {
+            tokio::time::advance(std::time::Duration::from_millis(300)).await;
+            tokio::task::yield_now().await;
+        });
+    }
 
     // the request
     let table: Option<TableSpec<'static>> = rq.ks.map(|k| TableSpec::owned(format!("k{}", k), "t".to_owned()));
@@ -541,6 +640,7 @@ pub fn run(case: &str, ctx: &mut Ctx) -> String {
     let mut replica_prefix: Option<Vec<u64>> = None;
     let mut fixed_pick: Option<Option<Obs>> = None;
     let mut fixed_fb: Option<Vec<Obs>> = None;
+    let mut la_dups = 0usize;
     for k in 0..samples {
         let picked: Option<Obs> = policy.pick(&ri, &cs).map(|(n, s)| (node_id(n.host_id), s));
         let fb: Vec<Obs> = policy.fallback(&ri, &cs).map(|(n, s)| (node_id(n.host_id), s)).collect();
@@ -549,10 +649,12 @@ pub fn run(case: &str, ctx: &mut Ctx) -> String {
 
         // ---- oracle on the plan
         for (i, (id, shard)) in plan.iter().enumerate() {
-            if plan[..i].contains(&(*id, *shard)) {
+            // (latency awareness: the FIRST node may be named again - counted, not judged; nothing else may repeat)
+            let before: &[(u64, u32)] = if is_lplan && i > 0 { &plan[1..i] } else { &plan[..i] };
+            if !is_lplan && before.contains(&(*id, *shard)) {
                 ctx.fail(format!("sample {}: target {}@{} twice in the plan {}", k, id, shard, nat_list(&plan_ids)));
             }
-            if plan_ids[..i].iter().filter(|j| *j == id).count() >= multiplicity(*id) {
+            if before.iter().filter(|j| j.0 == *id).count() >= multiplicity(*id) {
                 ctx.fail(format!("sample {}: node {} more often in the plan than it has replica shards: {}", k, id, nat_list(&plan_ids)));
             }
             let Some(p) = by_id.get(id) else {
@@ -574,7 +676,7 @@ pub fn run(case: &str, ctx: &mut Ctx) -> String {
             if class(*id) > 2 && *shard >= nr_shards(*id) {
                 ctx.fail(format!("sample {}: shard {} of node {} is not below its shard count {}", k, shard, id, nr_shards(*id)));
             }
-            if class(*id) <= 2 && !shards_of(*id).contains(shard) {
+            if class(*id) <= 2 && !shards_of(*id).contains(shard) && !(is_lplan && i == 0) {
                 ctx.fail(format!(
                     "sample {}: replica {} is planned on shard {}, the token's / tablet's shard there is {:?}",
                     k,
@@ -589,7 +691,10 @@ pub fn run(case: &str, ctx: &mut Ctx) -> String {
                 ctx.fail(format!("sample {}: enabled token-owning node {} missing from the plan {}", k, id, nat_list(&plan_ids)));
             }
         }
-        if plan_ids.iter().all(|id| by_id.contains_key(id)) {
+        if is_lplan && plan_ids.len() > 1 && plan_ids[1..].contains(&plan_ids[0]) {
+            la_dups += 1;
+        }
+        if !is_lplan && plan_ids.iter().all(|id| by_id.contains_key(id)) {
             for i in 1..plan_ids.len() {
                 if class(plan_ids[i - 1]) > class(plan_ids[i]) {
                     ctx.fail(format!(
@@ -651,7 +756,7 @@ pub fn run(case: &str, ctx: &mut Ctx) -> String {
                 }
             }
         }
-        if !cfg.shuffle {
+        if !cfg.shuffle && !is_lplan {
             let fixed_p = picked.filter(|p| p.1.is_some());
             let fixed_f: Vec<Obs> = fb.iter().filter(|o| o.1.is_some()).cloned().collect();
             match (&fixed_pick, &fixed_fb) {
@@ -675,6 +780,9 @@ pub fn run(case: &str, ctx: &mut Ctx) -> String {
         if first_set.is_none() {
             let mut s = plan_ids.clone();
             s.sort_unstable();
+            if is_lplan {
+                s.dedup();
+            }
             first_set = Some(s);
             let mut r: Vec<Obs> = fb.iter().filter(|o| o.1.is_some()).cloned().collect();
             first_lwt = Some(r.clone());
@@ -740,11 +848,12 @@ pub fn run(case: &str, ctx: &mut Ctx) -> String {
     let all_same = plans.windows(2).all(|w| w[0].iter().map(|x| x.0).eq(w[1].iter().map(|x| x.0)));
     let det = if all_same { nat_list(&plans[0].iter().map(|x| x.0).collect::<Vec<_>>()) } else { "*".to_owned() };
     let mut line = format!(
-        "set={} rep={} lwt={} det={} |",
+        "set={} rep={} lwt={} det={}{} |",
         nat_list(&first_set.unwrap_or_default()),
         obs_list(&first_rep.unwrap_or_default()),
         if lwt { obs_list(&first_lwt.unwrap_or_default()) } else { "x".into() },
-        det
+        det,
+        if is_lplan { format!(" dups={}", la_dups) } else { String::new() }
     );
     for s in out_samples {
         line.push(' ');
@@ -934,7 +1043,14 @@ fn grid(rng: &mut Rng, peers: &[PeerSpec], kss: &[Strat], samples: usize, stride
 /// evidence histogram (both sides accept any first word `plan` or `plan.<tag>`).
 fn tagged(line: String) -> String {
     let w: Vec<&str> = line.split(' ').collect();
-    if !((w.len() == 6 && w[0] == "plan") || (w.len() == 7 && w[0] == "tplan")) {
+    if w[0] == "hplan" && w.len() >= 8 {
+        // tag from the configuration / request words, which sit before the sample count
+        let k = w.len();
+        let t = tagged(format!("plan - - {} {} {}", w[k - 3], w[k - 2], w[k - 1]));
+        let tag = t.split(' ').next().unwrap_or("plan").trim_start_matches("plan").to_owned();
+        return format!("hplan{} {}", tag, w[1..].join(" "));
+    }
+    if !((w.len() == 6 && (w[0] == "plan" || w[0] == "lplan")) || (w.len() == 7 && w[0] == "tplan")) {
         return line;
     }
     let (Some(cfg), Some(rq)) = (parse_config(w[3]), parse_request(w[4])) else {
@@ -1190,6 +1306,145 @@ pub fn generate(rng: &mut Rng, tier: Tier, emit0: &mut dyn FnMut(String)) {
         }
     }
 
+    // 3c. refresh histories: the cluster state the plans are computed on is the result of ClusterState::new followed by
+    // 1..3 metadata refreshes in which nodes change rack (the stale-rack hazard of the node-reuse arms), datacenter,
+    // position (= address: the inherit arm), tokens, leave and join, get enabled / disabled / down; rejecting (r, t) and
+    // accepting (R, T) host filters.  Judged against the LAST metadata.
+    let hshape = TopoShape { max_nodes: 8, max_dcs: 2, max_racks: 3, max_vnodes: 2, dups: 0 };
+    for _ in 0..if quick { 350 } else { 6000 } {
+        let mut peers = gen_topology(rng, hshape);
+        if peers.len() < 3 {
+            continue;
+        }
+        let kss: Vec<Strat> = vec![gen_strategy(rng, &peers), gen_strategy(rng, &peers)];
+        let flag = |rng: &mut Rng| -> String {
+            match rng.below(10) {
+                0 => "x".into(),
+                1 => "d".into(),
+                _ => String::new(),
+            }
+        };
+        for p in peers.iter_mut() {
+            p.flags = flag(rng);
+        }
+        let mut steps: Vec<String> = vec![format!("n {}", fmt_topology(&peers))];
+        let next_id = peers.iter().map(|p| p.id).max().unwrap_or(0) + 1;
+        for step in 0..rng.range(1, 3) {
+            // mutate the metadata
+            for p in peers.iter_mut() {
+                match rng.below(12) {
+                    // the rack changes, the datacenter stays (node objects may be reused / inherited)
+                    0..=2 => p.rack = Some(rng.below(3) as u32),
+                    3 => p.rack = None,
+                    4 => p.dc = Some(rng.below(2) as u32),
+                    5 => p.flags = flag(rng),
+                    _ => {}
+                }
+            }
+            match rng.below(8) {
+                0 if peers.len() > 3 => {
+                    let i = rng.below(peers.len() as u64) as usize;
+                    peers.remove(i);
+                }
+                1 => peers.push(PeerSpec {
+                    id: next_id + step as u64,
+                    dc: Some(rng.below(2) as u32),
+                    rack: Some(rng.below(3) as u32),
+                    tokens: vec![rng.range(100, 100_000) * 7 + step],
+                    flags: flag(rng),
+                }),
+                // positions change: the address of every later peer changes
+                2 | 3 => rng.shuffle(&mut peers),
+                _ => {}
+            }
+            let mode = *rng.pick(&["R", "T", "r", "t", "F", "F", "G", "G"]);
+            if mode == "F" || mode == "G" {
+                // one host-filter verdict per peer: accepted (`a`, possibly down) or rejected (`d`)
+                let mut with_verdicts = peers.clone();
+                for p in with_verdicts.iter_mut() {
+                    p.flags = match rng.below(10) {
+                        0..=2 => "d".into(),
+                        3 => "ax".into(),
+                        _ => "a".into(),
+                    };
+                }
+                peers = with_verdicts;
+            } else {
+                for p in peers.iter_mut() {
+                    p.flags = p.flags.replace('a', "");
+                }
+            }
+            steps.push(format!("{} {}", mode, fmt_topology(&peers)));
+        }
+        let toks = query_tokens(&peers);
+        for _ in 0..5 {
+            let pref = match rng.below(6) {
+                0 => gen_pref(rng, &peers, true),
+                1 => Pref::Dc(rng.below(2) as u32),
+                _ => Pref::DcRack(rng.below(2) as u32, rng.below(3) as u32),
+            };
+            let cfg = format!(
+                "{}/{}/{}/{}",
+                pref.fmt(),
+                if rng.chance(9, 10) { "t" } else { "n" },
+                if rng.chance(1, 2) { "f" } else { "n" },
+                if rng.chance(3, 4) { "s" } else { "x" }
+            );
+            emit(format!(
+                "hplan {} {} {} {} {}/{}/{}/{}/-/{} {}",
+                steps.len(),
+                steps.join(" "),
+                fmt_strategies(&kss),
+                cfg,
+                rng.pick(&toks),
+                rng.below(2),
+                if rng.chance(1, 3) { 1 } else { 0 },
+                *rng.pick(&["one", "lq", "quorum", "serial"]),
+                gen_pref(rng, &peers, false).fmt(),
+                samples
+            ));
+        }
+    }
+
+    // 3d. latency awareness ON (an observation outside the property's quantifier): some nodes are reported slow (flag `p`)
+    // and are penalised; the fast ones may be down or disabled, so that every alive candidate is penalised
+    for _ in 0..if quick { 250 } else { 4000 } {
+        let mut peers = gen_topology(rng, rich);
+        if peers.len() < 3 {
+            continue;
+        }
+        let kss: Vec<Strat> = (0..2).map(|_| gen_strategy(rng, &peers)).collect();
+        let mode = rng.below(4);
+        for p in peers.iter_mut() {
+            let slow = match mode {
+                0 => true,
+                1 => rng.chance(3, 4),
+                _ => rng.chance(1, 3),
+            };
+            let fl = match rng.below(10) {
+                0 | 1 => "x",
+                2 => "d",
+                _ => "",
+            };
+            // the fast nodes are the ones that tend to be away
+            p.flags = if slow { "p".to_owned() } else { format!("{}", if rng.chance(1, 2) { "x" } else { fl }) };
+            if slow && rng.chance(1, 6) {
+                p.flags.push('x');
+            }
+        }
+        let topo = fmt_topology(&peers);
+        for _ in 0..4 {
+            emit(format!(
+                "lplan {} {} {} {} {}",
+                topo,
+                fmt_strategies(&kss),
+                gen_config(rng, &peers),
+                gen_request(rng, &peers, 2),
+                samples
+            ));
+        }
+    }
+
     // 4. malformed case lines (both sides must answer `bad-case`)
     for bad in [
         "plan",
@@ -1203,6 +1458,14 @@ pub fn generate(rng: &mut Rng, tier: Tier, emit0: &mut dyn FnMut(String)) {
         "route 1:0:0:5 S1 a/t/f/s 5/0/0/one/-/a 3",
         "tplan 1:0:0:5 S1 a/t/f/s 5/0/0/one/-/a 3",
         "tplan 1:0:0:5 - a/t/f/s 5/0/0/one/-/a 1@0 3",
+        "hplan 0 S1 a/t/f/s 5/0/0/one/-/a 3",
+        "hplan 2 n 1:0:0:5 F 1:0:1:5 S1 a/t/f/s 5/0/0/one/-/a 3",
+        "hplan 2 n 1:0:0:5 G 1:0:1:5:ad S1 a/t/f/s 5/0/0/one/-/a 3",
+        "lplan 1:0:0:5 S1 a/t/f/s 5/0/0/one/-/a 0",
+        "hplan 2 r 1:0:0:5 R 1:0:1:5 S1 a/t/f/s 5/0/0/one/-/a 3",
+        "hplan 2 n 1:0:0:5 n 1:0:1:5 S1 a/t/f/s 5/0/0/one/-/a 3",
+        "hplan 2 n 1:0:0:5:s4.12 R 1:0:1:5 S1 a/t/f/s 5/0/0/one/-/a 3",
+        "hplan 2 n 1:0:0:5 R 1:0:1:5 S1 a/t/f/s 5/0/0/one/-/a",
         "tplan 1:0:0:5 S1 a/t/f/s 5/0/0/one/-/a 1:5:1@0|5:9:1@0 3",
         "tplan 1:0:0:5 S1 a/t/f/s 5/0/0/one/-/a 7:5:1@0 3",
         "tplan 1:0:0:5 S1 a/t/f/s 5/0/0/one/-/a -9223372036854775808:5:1@0 3",
